@@ -370,6 +370,19 @@ Definition idx_ok (idx : list Z) : bool := forallb (fun i => (0 <=? i) && (i <=?
 Definition multi (idx : list Z) : bool := existsb (fun i => negb (i =? 0)) idx.
 Definition cls_of (r : result) : N := let '(_, _, c, _) := r in c.
 
+(** the model of several instances run together: one breaker per index *)
+Definition upd (f : Z -> cb) (k : Z) (v : cb) : Z -> cb := fun j => if j =? k then v else f j.
+
+Fixpoint wrapm_run (pol : policy) (f : Z -> cb) (idx : list Z) (calls : list (Z * houtcome * ctxstate))
+  : list (Z * Z * Z * Z * Z) :=
+  match idx, calls with
+  | i :: it, (now, h, cx) :: t =>
+      let '(r, c') := wrap_call_ctx pol now cx h (f i) in
+      (wres_code r, wrap_handler_runs r, st_code (c_state c'), c_id c', win_total (c_win c'))
+        :: wrapm_run pol (upd f i c') it t
+  | _, _ => []
+  end.
+
 Record wrapm_case := { mw : wrap_case; mw_idx : list Z }.
 
 Definition wrapm_part (c : wrapm_case) (k : Z) : wrap_case :=
